@@ -491,6 +491,10 @@ op_chunkiter (char **tok, int ntok)
 		}
 }
 
+/* accessors for ops living in other harness files (chunks.c) */
+SNDFILE *sfh_handle_sf (const char *name) { HANDLE *h = handle_get (name) ; return h ? h->sf : NULL ; }
+SF_CHUNK_ITERATOR **sfh_handle_it (const char *name) { HANDLE *h = handle_get (name) ; return h ? &h->it : NULL ; }
+
 static void
 op_fault (char **tok, int ntok)
 {	const char *v ;
@@ -522,6 +526,7 @@ run_line (char *line)
 	else if (!strcmp (tok [0], "getstr") && ntok >= 3) op_getstr (tok) ;
 	else if (!strcmp (tok [0], "setchunk") && ntok >= 3) op_setchunk (tok, ntok) ;
 	else if ((!strcmp (tok [0], "chunkiter") || !strcmp (tok [0], "chunknext") || !strcmp (tok [0], "chunkget")) && ntok >= 2) op_chunkiter (tok, ntok) ;
+	else if ((!strcmp (tok [0], "chunkdata") || !strcmp (tok [0], "chunkall")) && ntok >= 2) op_chunks (tok, ntok) ;
 	else if (!strcmp (tok [0], "fault")) op_fault (tok, ntok) ;
 	else if (!strcmp (tok [0], "iostat")) printf ("calls=%ld fired=%ld\n", fault.calls, fault.fired) ;
 	else if (!strcmp (tok [0], "store") && ntok >= 2)
